@@ -222,6 +222,7 @@ impl SqCase {
         if let Some(e) = entry {
             if self.consumed.contains(&e) {
                 self.oracle.push(("C04".into(), "C04/consumed-twice".into(), format!("entry {e} reached the kernel twice")));
+                            self.oracle.push(("C01".into(), "C01/submission-executed-twice".into(), format!("entry {e} reached the kernel twice: the second execution still references the operation's memory after the first completion released it")));
             }
             self.consumed.push(e);
             self.feats.push("kernel-consumes".into());
@@ -358,6 +359,7 @@ impl Case for SqCase {
                         Some(e) => {
                             if self.consumed.contains(&e) {
                                 self.oracle.push(("C04".into(), "C04/consumed-twice".into(), format!("entry {e} reached the kernel twice")));
+                            self.oracle.push(("C01".into(), "C01/submission-executed-twice".into(), format!("entry {e} reached the kernel twice: the second execution still references the operation's memory after the first completion released it")));
                             }
                             self.consumed.push(e);
                             self.feats.push("enter-consumes".into());
